@@ -235,9 +235,23 @@ def _explore_chunk(idx):
     t0 = time.time()
     ok, out = core.compile_js(d, minify=bool(_WORK.get('minify')), keep_all=bool(_WORK.get('keep_all')))
     if not ok:
+        import re as _re
+        internal = '[compiler panic]' in out or 'internal compiler error' in out
         for c in ch:
             rep.cases += 1
-            rep.inconclusive.append({'tag': c.tag, 'reason': 'template does not compile: ' + out[-400:]})
+            if internal and len(ch) == 1:
+                # the compiler aborted with an internal error on a valid program: a violation of "accepted without an internal error"
+                # (replayed like any other: native go builds and runs it, the real gopherjs fails)
+                m = _re.search(r'\[compiler panic\][^\n]*', out)
+                kn = [k for k in known if k.get('status', 'known') == 'known' and _re.fullmatch(k['harness'], c.tag) and k.get('class_smt') == 'true']
+                if kn:
+                    rep.known_hits.append({'tag': c.tag, 'finding': kn[0], 'model': {}})
+                else:
+                    rep.violations.append({'tag': c.tag, 'why': 'the compiler fails with an internal error: ' + (m.group(0) if m else out[-200:]), 'model': {}, 'values': None, 'case': c, 'term': {'kind': 'build'}})
+            else:
+                rep.inconclusive.append({'tag': c.tag, 'reason': 'template does not compile: ' + out[-400:]})
+        for v in rep.violations:
+            v['case'] = v['case'].tag
         return rep
     t1 = time.time()
     try:
